@@ -27,6 +27,7 @@ import time
 from concurrent.futures import ThreadPoolExecutor
 
 from rv import core
+from rv.faults import Unprintable
 from rv.exprgen import AllowedGen, ALLOWED_BINOPS, ALLOWED_UNARY, ALLOWED_CMP, ALLOWED_BOOL
 
 PID = "C01"
@@ -150,7 +151,7 @@ def plan(tier):
             "timeout": 900 if tier == "quick" else 3000,
             "require": {"engine_calls": 20000, "walker_frames_observed": 50000, "walker_frames_returning_value": 20000,
                         "walker_frames_raising": 5000, "parses_recorded": 10000, "audit_events_seen": 10000, "successes_judged": 3000,
-                        "table_entries_inspected": 50, "expr_classes_covered": 20, "bombs_run": 10, "tool_pathway_successes": 100,
+                        "table_entries_inspected": 50, "expr_classes_covered": 20, "bombs_run": 10, "tool_pathway_successes": 100, "registered_tools_addressed": 1000,
                         "silent_false_calls": 5000, "digest_glucose_calls": 2000, "dead_branch_cases": 200}}
 
 
@@ -505,7 +506,11 @@ def make_engine(rng, kind):
         mito.register_function("probe", lambda *a, **k: ("probe", a, tuple(sorted(k))), "echo")
         tools.add("probe")
     if kind >= 2:
+        unprintable = rng.random() < 0.3      # a tool whose exception cannot even be turned into text
+
         def bad(*a, **k):
+            if unprintable:
+                raise Unprintable("tool failed")
             raise Boom("tool failed")
         mito.register_function(rng.choice(["boom", "sum", "ab", "probe2"]), bad, "raises")
         tools = set(mito.tools)
@@ -577,6 +582,14 @@ def run_case(ctx, n):
             ctx.count("ros_latch_cycles")
     if rng.random() < 0.3:
         engine_call(ctx, mito, expr, None, tools, desc, entry="digest_glucose")
+    # every registered tool is also addressed directly (well-behaved, raising, odd-result ones): the engine stays total whatever a tool does
+    for name in sorted(tools):
+        call = "%s(%s)" % (name, rng.choice(["", "1", "1, 2", "'a', k=2", expr]))
+        for pw in (None, "OXIDATIVE"):
+            engine_call(ctx, mito, call, pw, tools, dict(desc, tool_call=name))
+            ctx.count("registered_tools_addressed")
+            if mito.get_ros_level() >= mito.max_ros:
+                mito.repair(1.0)
     try:
         tree = ast.parse(expr, mode="eval")
         pairs = sorted({(type(c).__name__, type(p).__name__) for p in ast.walk(tree) for c in ast.iter_child_nodes(p) if isinstance(c, ast.expr)})
